@@ -167,6 +167,10 @@ def run_job(job, findings_open):
                 if lv == "unsat":
                     extra.append(lz)
                     r["lemmas_proved"] = r.get("lemmas_proved", 0) + 1
+            try:
+                res.setdefault("hashes", []).append(hashlib.md5((ob.name + "|" + z3.simplify(z3.Not(claim)).sexpr()).encode()).hexdigest()[:12])
+            except Exception:  # noqa
+                pass
             verdict, model, level, secs = core.decide(c, claim, extra=extra)
             r[verdict] += 1
             r["seconds"] += secs
